@@ -40,7 +40,7 @@ theorem nodeMapGet_set (m : List (QName × Nat)) (q q' : QName) (i : Nat) :
         simp only [nodeMapGet, List.find?_cons, hkq', Bool.false_eq_true] at this ⊢
         exact this
 
-theorem same_refl' (q : QName) : q.same q = true := by simp [QName.same]
+theorem same_refl2 (q : QName) : q.same q = true := by simp [QName.same]
 
 /-- resolving an endpoint keeps the map sound, returns a pool entry with that identifier, and only ever appends to the pool -/
 theorem endpoint_spec (st : GState) (a : String) (q : QName) (st' : GState) (i : Nat) (hm : MapOk st)
@@ -58,7 +58,7 @@ theorem endpoint_spec (st : GState) (a : String) (q : QName) (st' : GState) (i :
     · next k _ =>
       simp only [Option.some.injEq, Prod.mk.injEq] at h
       obtain ⟨rfl, rfl⟩ := h
-      refine ⟨?_, ⟨⟨none, k, q⟩, by simp, same_refl' q⟩, ⟨[⟨none, k, q⟩], rfl⟩, rfl⟩
+      refine ⟨?_, ⟨⟨none, k, q⟩, by simp, same_refl2 q⟩, ⟨[⟨none, k, q⟩], rfl⟩, rfl⟩
       intro q' j hj
       simp only [nodeMapGet_set] at hj
       split at hj
